@@ -4,8 +4,8 @@
    or not, in any order, including witnesses arriving after their round was decided) interleaved
    with ProcessSigPool calls, from any genesis set.  [delivered] is the sequence of commit
    callbacks; [blocks] is what Store.GetBlock reports. *)
-From Coq Require Import ZArith List Bool.
-From V Require Import Model.ZMap Model.Quorum Model.HgImpl Proofs.BlockInv.
+From Coq Require Import ZArith List Bool Sorted.
+From V Require Import Model.ZMap Model.Quorum Model.HgImpl Proofs.BlockInv Proofs.RoundOrder.
 Import ListNotations.
 Open Scope Z_scope.
 
@@ -35,14 +35,32 @@ Theorem C02_immutable : forall self_ genesis oracle_ ops ops' k d,
 Proof. exact delivered_block_immutable. Qed.
 Print Assumptions C02_immutable.
 
-(* FULL STATEMENT still to be proved (kept visible): round-received strictly increases along the
-   delivery sequence.  It needs the invariant that the pending-rounds queue is sorted and above
-   the last consensus round; the oracle of the check evaluates it on every history. *)
-Definition C02_rr_increasing_statement : Prop :=
-  forall self_ genesis oracle_ ops k d d',
-    nth_error (delivered (hrun (init_hg self_ genesis oracle_) ops)) k = Some d ->
-    nth_error (delivered (hrun (init_hg self_ genesis oracle_) ops)) (S k) = Some d' ->
-    b_rr d < b_rr d'.
+(* round-received strictly increases along the delivery sequence (hence no round is delivered
+   twice and blocks come in round order).  Proofs/RoundOrder.v: the pending-rounds queue is strictly
+   sorted and above the last consensus round, rounds are contiguous, a processed round stays
+   flagged decided and is never queued again; a delivered block carries the round it was processed
+   for. *)
+Theorem C02_rr_increasing : forall self_ genesis oracle_ ops k d d',
+  nth_error (delivered (hrun (init_hg self_ genesis oracle_) ops)) k = Some d ->
+  nth_error (delivered (hrun (init_hg self_ genesis oracle_) ops)) (S k) = Some d' ->
+  b_rr d < b_rr d'.
+Proof. exact delivered_rr_increasing. Qed.
+Print Assumptions C02_rr_increasing.
+
+(* the queue invariant itself, for every reachable state in which no pass returned a store error *)
+Theorem C02_queue_invariant : forall self_ genesis oracle_ ops,
+  let st := hrun (init_hg self_ genesis oracle_) ops in
+  failed st = false ->
+  StronglySorted Z.lt (map fst (pending st)) /\
+  (forall r, In r (map fst (pending st)) -> match last_consensus st with Some l => l < r | None => True end) /\
+  (forall r, get_round st r <> None <-> 0 <= r <= last_round st) /\
+  (forall d, In d (delivered st) -> exists l, last_consensus st = Some l /\ b_rr d <= l).
+Proof.
+  exact (fun s g o ops Hf =>
+    let I := proj2 (hrun_rtop s g o ops) Hf in
+    conj (r_sorted _ (proj1 I)) (conj (r_above _ (proj2 I)) (conj (r_contig _ (proj1 I)) (r_del_lc _ (proj1 I))))).
+Qed.
+Print Assumptions C02_queue_invariant.
 
 (* non-vacuity: a single-validator history that delivers two blocks *)
 Definition c02_g : peerset := [mkPeer 100 0].
@@ -53,4 +71,9 @@ Definition c02_ops : list hop :=
 Example C02_example :
   map (fun b => (b_index b, b_rr b, b_txs b)) (delivered (hrun (init_hg 0 c02_g [7; 8; 9]) c02_ops))
   = [(0, 1, [1]); (1, 2, [2])].
+Proof. vm_compute. reflexivity. Qed.
+(* the hypothesis of C02_queue_invariant is satisfiable on that history, with a non-empty queue *)
+Example C02_example_queue :
+  let st := hrun (init_hg 0 c02_g [7; 8; 9]) c02_ops in
+  (failed st, pending st, last_consensus st, last_round st) = (false, [(4, false); (5, false)], Some 3, 5).
 Proof. vm_compute. reflexivity. Qed.
